@@ -96,11 +96,11 @@ def machine_num(name):
 
 
 class Img:
-    """Plan of one image: ehdr | gap | phdr table (stride phentsize) | shdr table | .shstrtab | free area.
+    """Plan of one image: ehdr | gap | phdr table (stride phentsize) | shdr table (stride shentsize) | .shstrtab | free area.
     sections: list of dicts (type flags addr offset size [link info addralign entsize]) — section 0 (null) and the
     trailing .shstrtab are added here.  segments: list of 8-tuples in Spec phdr order
     (type flags offset vaddr paddr filesz memsz align).  blobs: (offset, bytes) placed over the filler."""
-    def __init__(self, cfg, sections, segments, blobs=(), length=0, phgap=0, phextra=0, seed=0):
+    def __init__(self, cfg, sections, segments, blobs=(), length=0, phgap=0, phextra=0, seed=0, shextra=0):
         is64, le, mach = cfg
         self.is64, self.le, self.mach = bool(is64), bool(le), mach
         S = STD[self.is64]
@@ -117,14 +117,15 @@ class Img:
         self.phentsize = S['ph'] + phextra
         self.shoff = self.phoff + self.phentsize * len(segments)
         self.nsec = len(sections) + 2
-        self.stroff = self.shoff + S['sh'] * self.nsec
+        self.shentsize = S['sh'] + shextra      # entries may be larger than the structure (gABI e_shentsize)
+        self.stroff = self.shoff + self.shentsize * self.nsec
         self.tables_end = self.stroff + len(names)
         self.length = max(length, self.tables_end)
         m = machine_num(mach)
         reqs = [['enc', 'Ehdr', self.le, self.is64,
                  [b'\x7fELF', 2 if self.is64 else 1, 1 if self.le else 2, 1, 0, 0, b'\0' * 7,
                   2, m, 1, 0, self.phoff if segments else 0, self.shoff, 0, S['eh'], self.phentsize, len(segments),
-                  S['sh'], self.nsec, self.nsec - 1]]]
+                  self.shentsize, self.nsec, self.nsec - 1]]]
         for g in segments:
             reqs.append(['enc_phdr', self.le, self.is64, list(g)])
         reqs.append(['enc', 'Shdr', self.le, self.is64, [0] * 10])
@@ -148,7 +149,7 @@ class Img:
         for i in range(self.nsec):
             e = encs[k]; k += 1
             assert len(e) == S['sh']
-            o = self.shoff + i * S['sh']
+            o = self.shoff + i * self.shentsize
             img[o:o + S['sh']] = e
         img[self.stroff:self.stroff + len(self.names)] = self.names
         for off, b in self.blobs:
@@ -158,6 +159,46 @@ class Img:
                 img.extend(b'\0' * (end - len(img)))
             img[off:end] = b
         return bytes(img)
+
+
+class BigImg:
+    """Image with 0xffff or more program headers: e_phnum = PN_XNUM (0xffff), the count in sh_info of section header 0.
+    ehdr | phdr table given as RUNS (count, header) | null shdr, .shstrtab shdr | names.  Each distinct header is
+    encoded once by the Coq encoder; the table is assembled here."""
+    def __init__(self, cfg, runs, phextra=0, seed=0):
+        is64, le, mach = cfg
+        self.is64, self.le, self.mach = bool(is64), bool(le), mach
+        S = STD[self.is64]
+        self.runs, self.seed = runs, seed
+        self.count = sum(c for c, _ in runs)
+        assert self.count >= 0xffff
+        self.names = b'\0.shstrtab\0'
+        self.phoff = S['eh']
+        self.phentsize = S['ph'] + phextra
+        self.shoff = self.phoff + self.phentsize * self.count
+        self.stroff = self.shoff + 2 * S['sh']
+        self.length = self.stroff + len(self.names)
+        self.reqs = [['enc', 'Ehdr', self.le, self.is64,
+                      [b'\x7fELF', 2 if self.is64 else 1, 1 if self.le else 2, 1, 0, 0, b'\0' * 7,
+                       4, machine_num(mach), 1, 0, self.phoff, self.shoff, 0, S['eh'], self.phentsize, 0xffff,
+                       S['sh'], 2, 1]]]
+        for _, g in runs:
+            self.reqs.append(['enc_phdr', self.le, self.is64, list(g)])
+        self.reqs.append(['enc', 'Shdr', self.le, self.is64, [0, 0, 0, 0, 0, 0, 0, self.count, 0, 0]])
+        self.reqs.append(['enc', 'Shdr', self.le, self.is64, [1, 3, 0, 0, self.stroff, len(self.names), 0, 0, 1, 0]])
+
+    def finish(self, encs):
+        S = STD[self.is64]
+        pad = filler(self.phentsize - S['ph'], self.seed)
+        parts = [encs[0]]
+        self.fits = True
+        for (c, _), (e, fits) in zip(self.runs, encs[1:1 + len(self.runs)]):
+            self.fits = self.fits and bool(fits) and len(e) == S['ph']
+            parts.append((e + pad) * c)
+        parts += [encs[-2], encs[-1], self.names]
+        img = b''.join(parts)
+        assert len(img) == self.length
+        return img
 
 
 def open_elf(img):
@@ -227,10 +268,37 @@ OBS = ('compressed', 'data_size', 'data_alignment', 'data()')
 OLD_ORDER = [[0, [3, 0, 1, 2]]]      # what this harness asked before orders were drawn (replays of that time)
 
 
+ENTRY_POINTS = ('get_section(1) on a new ELFFile', 'get_section(1)', 'second item of an abandoned iter_sections()',
+                "get_section_by_name('s1')", 'list(iter_sections())[1]', 'iter_sections(type=its type)',
+                "get_section(get_section_index('s1'))")
+
+
+def obtain_section(how, new_elf, shared_elf):
+    """section 1 of the image through one of the ENTRY_POINTS; all of them must lead to the same section"""
+    if how == 0:
+        return new_elf().get_section(1)
+    elf = shared_elf()
+    if how == 1:
+        return elf.get_section(1)
+    if how == 2:
+        it = elf.iter_sections()
+        next(it)
+        return next(it)         # the walk is abandoned here
+    if how == 3:
+        assert elf.has_section('s1')
+        return elf.get_section_by_name('s1')
+    if how == 4:
+        return list(elf.iter_sections())[1]
+    if how == 5:
+        t = elf.get_section(1)['sh_type']
+        # sections 0 (SHT_NULL) and 2 (.shstrtab) may have the same type: section 1 is the first or second match
+        return list(elf.iter_sections(type=t))[1 if t == 'SHT_NULL' else 0]
+    return elf.get_section(elf.get_section_index('s1'))
+
+
 def draw_orders(rng, big=False):
     """Orders of observation for one section case: a list of [how, [observer codes]].  Every order runs on a FRESH
-    section object (how: 0 new ELFFile + get_section, 1 get_section on the case's shared ELFFile, 2 second item of
-    an abandoned iter_sections(), 3 get_section_by_name, 4 list(iter_sections())[1]).  Each of the four observers is asked FIRST on some fresh
+    section object reached through a drawn entry point (how: index into ENTRY_POINTS).  Each of the four observers is asked FIRST on some fresh
     object (two of the four, drawn, for big payloads), the rest of the order is a drawn permutation, sometimes with
     an observer repeated, sometimes cut short."""
     firsts = [0, 1, 2, 3]
@@ -246,7 +314,7 @@ def draw_orders(rng, big=False):
             order.insert(rng.randint(1, 4), rng.randrange(4))
         if rng.random() < 0.15:
             order = order[:rng.randint(1, 3)]
-        out.append([rng.randrange(5), order])
+        out.append([rng.randrange(len(ENTRY_POINTS)), order])
     return out
 
 
@@ -365,21 +433,24 @@ def draw_phdr_free(rng, is64, filesz):
 
 
 def draw_shdr_free(rng, is64):
-    """[sh_link, sh_info, sh_entsize]: section header fields that say nothing about the contents"""
+    """[sh_link, sh_info, sh_entsize, shextra]: section header fields that say nothing about the contents, and by how
+    much e_shentsize exceeds the structure (per-entry padding filled with garbage)"""
     top = 2 ** (64 if is64 else 32)
     return [rng.choice([0, 0, 1, 2, 77, 0xffff]), rng.choice([0, 1, rng.getrandbits(32)]),
-            rng.choice([0, 0, 1, 8, 24, top - 1])]
+            rng.choice([0, 0, 1, 8, 24, top - 1]), rng.choice([0, 0, 8, 1, 24, 64])]
 
 
 def draw_sched(rng):
-    """[perm_seed, data_every]: the order in which the offsets of a table are looked up (0 ascending, 1 descending,
-    else shuffled by that seed) and after how many lookups a data() call is put in between (0: never)"""
-    return [rng.choice([0, 1, rng.randrange(2, 1 << 16), rng.randrange(2, 1 << 16)]), rng.choice([0, 1, 7, 50])]
+    """[perm_seed, data_every, shextra, how]: the order in which the offsets of a table are looked up (0 ascending,
+    1 descending, else shuffled by that seed), after how many lookups a data() call is put in between (0: never), the
+    padding of the section header table entries, the entry point through which the table section is reached"""
+    return [rng.choice([0, 1, rng.randrange(2, 1 << 16), rng.randrange(2, 1 << 16)]), rng.choice([0, 1, 7, 50]),
+            rng.choice([0, 8, 3, 40]), rng.randrange(1, len(ENTRY_POINTS))]
 
 
 def sched_offsets(offs, sched):
     import random
-    perm_seed, data_every = sched
+    perm_seed = sched[0]
     offs = list(offs)
     if perm_seed == 1:
         offs.reverse()
@@ -604,6 +675,29 @@ def gen_addr_hist(ctx, cases):
                                         draw_history(rng, segs, rng.choice([2, 5, 10, 16]))]))
 
 
+def gen_addr_big(ctx, cases):
+    """One program header table per run (thorough: one per class) with more than 0xffff entries, PT_LOADs at the
+    table indices 65534, 65535, 65536, at the very end and near the start, everything else non-loadable; looked up
+    through address_offsets generators and iter_segments(type='PT_LOAD')."""
+    rng = ctx.rng
+    cfgs = [CFGS[2 + ctx.seed % 2]] if ctx.tier == 'quick' else [CFGS[0], CFGS[3]]
+    for cfg in cfgs:
+        null = [0, 0, 0, 0, 0, 0, 0, 0]
+        note = [4, 4, 0x40, 0x500000, 0, 0x20, 0x20, 4]
+
+        def load(i):
+            return [1, rng.choice([4, 5, 6]), 0x1000 * (i + 1), 0x100000 * (i + 1), 0, 0x200 + i, 0x200 + i, 0x1000]
+        head = rng.randint(0, 3)
+        tail_gap = rng.randint(0, 3)
+        a, b, c, d, e = [load(i) for i in range(5)]
+        e = [1, 4, 0x9000, a[3] + 0x10, 0, 0x100, 0x100, 1]       # overlaps the address range of a
+        runs = [[head, null], [1, a], [65534 - head - 1 - 7, null], [7, note], [1, b], [1, c], [1, d], [tail_gap, note], [1, e]]
+        runs = [r for r in runs if r[0] > 0]
+        ops = [['start', ['addr', c[3] + 5, 1, 1]], ['next', 0], ['noise', rng.randrange(9), 7],
+               ['all', ['addr', d[3], d[5], 0]], ['all', ['addr', a[3] + 0x20, 4, 0]], ['next', 0], ['all', ['loads']]]
+        cases.append(('addr_big', [cfg, rng.choice([0, 8]), runs, ops]))
+
+
 def sis_geometry(P, F, sizes):
     """(offset, size) classes of a section extent against a segment extent [P, P+F)"""
     out = []
@@ -725,6 +819,7 @@ def gen(ctx):
     gen_segments(ctx, cases)
     gen_addr(ctx, cases)
     gen_addr_hist(ctx, cases)
+    gen_addr_big(ctx, cases)
     gen_sis(ctx, cases)
     return cases
 
@@ -775,20 +870,10 @@ def run_sec_orders(ctx, img, orders, extent=None):
     out = []
     for how, order in orders:
         ctx.bump('first_observer_on_fresh_object', OBS[order[0]] if order else 'none')
+        ctx.bump('section_entry_point', ENTRY_POINTS[how])
 
         def one():
-            if how == 0:
-                sec = open_elf(img).get_section(1)
-            elif how == 1:
-                sec = elf_shared().get_section(1)
-            elif how == 2:
-                it = elf_shared().iter_sections()
-                next(it)
-                sec = next(it)          # the walk is abandoned here
-            elif how == 3:
-                sec = elf_shared().get_section_by_name('s1')
-            else:
-                sec = list(elf_shared().iter_sections())[1]
+            sec = obtain_section(how, lambda: open_elf(img), elf_shared)
             ans = []
             for code in order:
                 if code == 0:
@@ -920,12 +1005,14 @@ def evaluate(ctx, cases):
             cfg, sht, flags, addr, off, size, align, length, seed = a[:9]
             fr = a[10] if len(a) > 10 else [0, 0, 0]
             w.plan = Img(cfg, [dict(type=sht, flags=flags, addr=addr, offset=off, size=size, addralign=align,
-                                    link=fr[0], info=fr[1], entsize=fr[2])], [], length=length, seed=seed)
+                                    link=fr[0], info=fr[1], entsize=fr[2])], [], length=length, seed=seed,
+                         shextra=fr[3] if len(fr) > 3 else 0)
         elif kind == 'sec_nobits':
             cfg, flags, addr, off, size, align, length, seed = a[:8]
             fr = a[9] if len(a) > 9 else [0, 0, 0]
             w.plan = Img(cfg, [dict(type=8, flags=flags, addr=addr, offset=off, size=size, addralign=align,
-                                    link=fr[0], info=fr[1], entsize=fr[2])], [], length=length, seed=seed)
+                                    link=fr[0], info=fr[1], entsize=fr[2])], [], length=length, seed=seed,
+                         shextra=fr[3] if len(fr) > 3 else 0)
         elif kind == 'sec_comp':
             (cfg, sht, flags, addr, off, align, ch_type, res, declared, ch_align, zs, oracle, trailing, size_adj, tail,
              seed, level) = a[:17]
@@ -933,19 +1020,20 @@ def evaluate(ctx, cases):
             fr = a[18] if len(a) > 18 else [0, 0, 0]
             w.plan = Img(cfg, [dict(type=sht, flags=flags, addr=addr, offset=off, size=body_len + size_adj,
                                     addralign=align, link=fr[0], info=fr[1], entsize=fr[2])], [],
-                         length=off + body_len + tail, seed=seed)
+                         length=off + body_len + tail, seed=seed, shextra=fr[3] if len(fr) > 3 else 0)
             w.plan.reqs.append(['enc_chdr', bool(cfg[1]), bool(cfg[0]), ch_type, res, declared, ch_align])
         elif kind == 'sec_chdr_cut':
             cfg, off, cut = a[:3]
             fr = a[4] if len(a) > 4 else [0, 0, 0]
             w.plan = Img(cfg, [dict(type=1, flags=SHF_COMPRESSED, addr=0, offset=off, size=100, link=fr[0], info=fr[1],
-                                    entsize=fr[2])], [], length=off + cut, seed=3)
+                                    entsize=fr[2])], [], length=off + cut, seed=3, shextra=fr[3] if len(fr) > 3 else 0)
         elif kind == 'strtab':
             cfg, off, strs, final_nul, tail, seed = a[:6]
             tbl = b'\0'.join(strs) + (b'\0' if final_nul else b'')
             w.extra['tbl'] = tbl
+            sched = a[6] if len(a) > 6 else [0, 0]
             w.plan = Img(cfg, [dict(type=3, flags=0, addr=0, offset=off, size=len(tbl))], [], blobs=[(off, tbl)],
-                         length=off + len(tbl) + tail, seed=seed)
+                         length=off + len(tbl) + tail, seed=seed, shextra=sched[2] if len(sched) > 2 else 0)
         elif kind == 'seg_data':
             cfg, ptype, off, size, length, seed = a[:6]
             fl, va, pa, msz, al = a[8] if len(a) > 8 else (4, 0x1000, 0x2000, size + 7, 1)
@@ -965,6 +1053,9 @@ def evaluate(ctx, cases):
         elif kind == 'addr_hist':
             cfg, phgap, phextra, segs, ops = a
             w.plan = Img(cfg, [], [tuple(g) for g in segs], phgap=phgap, phextra=phextra, seed=6)
+        elif kind == 'addr_big':
+            cfg, phextra, runs, ops = a
+            w.plan = BigImg(cfg, [(c, tuple(g)) for c, g in runs], phextra=phextra, seed=7)
         elif kind in ('sis', 'sis_oracle'):
             cfg, g, s = a
             sis_groups.setdefault((tuple(cfg), kind), []).append(len(works))
@@ -1011,7 +1102,7 @@ def evaluate(ctx, cases):
                     oracle = ['error', data]
             w.extra['oracle'] = oracle
             olist = [o for _, o in w.extra['orders']]
-            w.mi = ask(['sec_obs', w.img, le, is64, mach, sht, flags, addr, off, size, align, oracle, olist])
+            w.mi = ask(['sec_obs_at', w.img, le, is64, mach, pl.shoff, pl.shentsize, 1, oracle, olist])
             w.si = ask(['spec_sec_obs', w.img, le, is64, sht, flags, off, size, align, oracle, olist])
             continue
         w.img = pl.finish(e)
@@ -1029,8 +1120,7 @@ def evaluate(ctx, cases):
             nfix = {'sec_plain': 9, 'sec_nobits': 8, 'sec_chdr_cut': 3}[kind]
             w.extra['orders'] = a[nfix] if len(a) > nfix else OLD_ORDER
             olist = [o2 for _, o2 in w.extra['orders']]
-            w.mi = ask(['sec_obs', w.img, le, is64, mach, s['type'], s['flags'], s['addr'], s['offset'], s['size'],
-                        s.get('addralign', 1), o, olist])
+            w.mi = ask(['sec_obs_at', w.img, le, is64, mach, pl.shoff, pl.shentsize, 1, o, olist])
             w.si = ask(['spec_sec_obs', w.img, le, is64, s['type'], s['flags'], s['offset'], s['size'],
                         s.get('addralign', 1), o, olist])
         elif kind == 'strtab':
@@ -1069,6 +1159,13 @@ def evaluate(ctx, cases):
             sz = 1 if size is None else size
             w.mi = ask(['addr', w.img, le, is64, mach, pl.phoff, pl.phentsize, len(segs), start, sz])
             w.si = ask(['spec_addr', w.img, le, is64, pl.phoff, pl.phentsize, segs, start, sz])
+        elif kind == 'addr_big':
+            cfg, phextra, runs, ops = a
+            dops = [['close', o[1]] if o[0] == 'drop' else o for o in ops]
+            # the model is not run on this image (megabytes as a list of Z): model = spec for tables of every
+            # length is theorem C02_address_offsets_history_exact; the spec answers come from the runs
+            w.mi = None
+            w.si = ask(['spec_elf_hist_sparse', le, is64, runs, dops])
         elif kind == 'addr_hist':
             cfg, phgap, phextra, segs, ops = a
             # the model and the spec know close(); dropping the last reference is the same event for a generator
@@ -1177,7 +1274,9 @@ def evaluate(ctx, cases):
             def run():
                 elf = open_after_predecessor(ctx, w.extra['sibling'], w.img,
                                              lambda s0: [s0.get_string(o) for o in offs] + [s0.data()])
-                sec = elf.get_section(1)
+                how = a[6][3] if len(a) > 6 and len(a[6]) > 3 else 1
+                ctx.bump('section_entry_point', ENTRY_POINTS[how])
+                sec = obtain_section(how, None, lambda: elf)
                 strings, datas = [], []
                 for i, o in enumerate(offs):
                     if every and i % every == 0:
@@ -1276,6 +1375,13 @@ def evaluate(ctx, cases):
             impl = impl_call(run)
             ctx.bump('addr_hits', len(offs))
             ctx.record(kind, a, impl=impl, spec=spec, model=model, in_domain=in_dom, nontrivial=True)
+        elif kind == 'addr_big':
+            cfg, phextra, runs, ops = a
+            fits, sans = answers[w.si]
+            in_dom = bool(fits) and w.plan.fits
+            impl = impl_call(lambda: run_history(ctx, w.img, ops))
+            ctx.bump('program_headers', w.plan.count)
+            ctx.record(kind, a, impl=impl, spec=sans, model=None, in_domain=in_dom, nontrivial=True)
         elif kind == 'addr_hist':
             cfg, phgap, phextra, segs, ops = a
             model = answers[w.mi]
